@@ -9,6 +9,16 @@ def poly_floats(P):
     return [[float(x) for x in frv(pt)] for pt in P]
 
 
+SMALL = 2.0 ** -27
+
+
+def unscale(r):
+    try:
+        return [[x / SMALL for x in pt] for pt in r]
+    except Exception:
+        return r
+
+
 def check_case(ctx, cs):
     from geomdl import helpers, operations
     from geomdl.exceptions import GeomdlException
@@ -28,6 +38,10 @@ def check_case(ctx, cs):
             ok, r = _try(ctx, "helpers.degree_elevation", tg, small, lambda: helpers.degree_elevation(p, [list(x) for x in P], num=num))
             if ok and not close_seq(r, exp):
                 ctx.violate("helpers.degree_elevation", tg, small, {"expected": fl(exp), "got": r})
+            # both operations are linear: the polygon given in a small unit (factor 2^-27, exact in binary floating point)
+            ok, r = _try(ctx, "helpers.degree_elevation", tg + ["unit=2^-27"], small, lambda: helpers.degree_elevation(p, [[x * SMALL for x in pt] for pt in P], num=num))
+            if ok and not close_seq(unscale(r), exp):
+                ctx.violate("helpers.degree_elevation", tg + ["unit=2^-27"], small, {"expected": fl(exp), "got_rescaled": unscale(r)})
             # polygon of rows of points (each row: the point twice)
             rows = [[list(x), list(x)] for x in P]
             ok, r = _try(ctx, "helpers.degree_elevation", tg + ["rows_of_points"], small, lambda: helpers.degree_elevation(p, rows, num=num))
@@ -40,6 +54,9 @@ def check_case(ctx, cs):
             ok, r = _try(ctx, "helpers.degree_reduction", tg, small, lambda: helpers.degree_reduction(p + 1, [list(x) for x in Q]))
             if ok and not close_seq(r, exp, 1e-8):
                 ctx.violate("helpers.degree_reduction", tg, small, {"expected": fl(exp), "got": r})
+            ok, r = _try(ctx, "helpers.degree_reduction", tg + ["unit=2^-27"], small, lambda: helpers.degree_reduction(p + 1, [[x * SMALL for x in pt] for pt in Q]))
+            if ok and not close_seq(unscale(r), exp, 1e-8):
+                ctx.violate("helpers.degree_reduction", tg + ["unit=2^-27"], small, {"expected": fl(exp), "got_rescaled": unscale(r)})
             rows = [[list(x), list(x)] for x in Q]
             ok, r = _try(ctx, "helpers.degree_reduction", tg + ["rows_of_points"], small, lambda: helpers.degree_reduction(p + 1, rows))
             if ok and not close_seq(r, [[e, e] for e in exp], 1e-8):
